@@ -387,13 +387,16 @@ def merge_cells(
 
 
 def compute_levels(parents):
+    """Return the depth of every branch (the number of branches between it and the root).
+
+    A parent does not have to have a smaller index than its children."""
     levels = np.zeros_like(parents)
 
-    for i, p in enumerate(parents):
-        if p == -1:
-            levels[i] = 0
-        else:
-            levels[i] = levels[p] + 1
+    for i in range(len(parents)):
+        p = parents[i]
+        while p != -1:
+            levels[i] += 1
+            p = parents[p]
     return levels
 
 
